@@ -21,6 +21,11 @@
  *                             are on the socket: nobody was inside a blocking wait yet), and, if q, until something is in
  *                             the incoming queue (dbus_connection_get_dispatch_status == DATA_REMAINS: some other thread
  *                             has started reading, i.e. a W thread's call, written before it reads, is on the socket too)
+ *     C<max_ms>               reply-then-close cases: without reading, wait (poll() on the connection's fd, as a main loop
+ *                             would) until the peer's hangup is pending on the socket - the stream is ordered, so
+ *                             whatever the peer wrote before closing is in the socket buffer by then; logs "chk" with
+ *                             a = hangup seen, b = bytes readable (FIONREAD), m[0] = revents.  The next read of the
+ *                             connection therefore consumes the peer's last bytes and the EOF in one iteration.
  *     J<watch_ms>             (thread 0 only, multi-blocker cases) wait until every other thread has finished its ops;
  *                             once the first blocking wait (B / W) of the case has returned the clock runs: a thread still
  *                             inside its blocking wait watch_ms later is reported ({"mb_stuck":1,...}) instead of the
@@ -40,6 +45,11 @@
 #include <stdatomic.h>
 #include <time.h>
 #include <errno.h>
+#include <poll.h>
+#include <sys/ioctl.h>
+#ifndef POLLRDHUP
+#define POLLRDHUP 0x2000        /* Linux; <poll.h> shows it only under _GNU_SOURCE */
+#endif
 
 #define MAX_CALLS 64
 #define MAX_THREADS 6
@@ -506,6 +516,32 @@ exec_op (const Op *o)
           }
         break;
       }
+    case 'C':
+      {
+        int fd = -1, hup = 0, avail = 0;
+        short rev = 0;
+        long long until = now_us () + o->a * 1000LL;
+        if (dbus_connection_get_unix_fd (conn, &fd) && fd >= 0)
+          {
+            for (;;)
+              {
+                struct pollfd pfd;
+                long long left = until - now_us ();
+                pfd.fd = fd; pfd.events = POLLIN | POLLRDHUP; pfd.revents = 0;
+                if (poll (&pfd, 1, left > 50000 ? 50 : (left > 0 ? (int) (left / 1000) : 0)) > 0)
+                  {
+                    rev = pfd.revents;
+                    if (rev & (POLLRDHUP | POLLHUP | POLLERR)) { hup = 1; break; }
+                    usleep (200);       /* data but no hangup yet: do not spin */
+                  }
+                if (now_us () >= until) break;
+              }
+            if (ioctl (fd, FIONREAD, &avail) != 0) avail = -1;
+          }
+        e = ev_new ("chk", -1);
+        e->a = hup; e->b = avail; e->rtype = 0; e->m[0] = rev; e->nm = 1;
+        break;
+      }
     case 'J':
       {
         /* The deadline is in wall time AND in this thread's own progress (it must itself have been scheduled
@@ -559,7 +595,7 @@ thread_main (void *arg)
   for (i = 0; i < n_ops; i++)
     if (ops[i].tid == tid)
       {
-        if (timer_gate && ops[i].code != 'F' && ops[i].code != 'Z' && ops[i].code != 'J')
+        if (timer_gate && ops[i].code != 'F' && ops[i].code != 'Z' && ops[i].code != 'J' && ops[i].code != 'C')
           {
             pthread_rwlock_rdlock (&gate);
             exec_op (&ops[i]);
